@@ -132,10 +132,10 @@ PROPS = {
                      extra_streams=[rounds("crash", 60, 360, ["rounds-crash", "create-revision", "update-revision", "delete-revision"])]),
     "C07": sync_prop(C07T, ["update-revision", "create-revision", "delete-revision"],
                      "non-trivial = a ControllerRevision was written (claims moved, revision created or pruned)" + RULE_ROUNDS, ["revisions", "children", "status", "hook"],
-                     extra_streams=[rounds("rollout", 60, 360, ["update-revision", "create-revision", "delete-revision"])]),
+                     extra_streams=[rounds("rollout", 96, 480, ["update-revision", "create-revision", "delete-revision"])]),
     "C08": sync_prop(C08T, ["rounds-rollout", "update-revision"],
                      "non-trivial = a whole rollout scenario (summary line), or a sync that wrote a ControllerRevision" + RULE_ROUNDS, ["revisions", "children", "status"],
-                     extra_streams=[rounds("rollout", 60, 360, ["rounds-rollout", "update-revision"])]),
+                     extra_streams=[rounds("rollout", 96, 480, ["rounds-rollout", "update-revision"])]),
     "C11": sync_prop(C11T + [("Mc.Props.C02Sem", "Mc.C02.C02_status_update_lands_on_observed")] + ATOMT + [("Mc.Props.AtomicSem", "Mc.Atomic.C11_status_on_live")], ["updateStatus-parent", "failed-updateStatus"],
                      "non-trivial = a parent status write was attempted" + RULE_INTERLEAVE, ["status", "outcome", "apimodel"],
                      extra_streams=[rounds("interleave", 600, 6000, ["updateStatus-parent", "failed-updateStatus"])]),
@@ -205,7 +205,7 @@ PROPS = {
     "C10": sync_prop(C10T + C10ST + ATOMT + [("Mc.Props.AtomicSem", "Mc.Atomic.C10_finalizer_edit_on_live")], ["update-parent", "hook-finalize", "create-child"],
                      "non-trivial = the parent was edited, the finalize hook called, or a child created" + RULE_ROUNDS, ["finalizer", "parent", "hook", "children", "apimodel"],
                      extra_streams=[rounds("faults", 96, 960, ["update-parent", "hook-finalize", "create-child", "failed-update"]),
-                                    rounds("rollout", 60, 360, ["update-parent", "hook-finalize", "create-child"])]),
+                                    rounds("rollout", 96, 480, ["update-parent", "hook-finalize", "create-child"])]),
 
     "C05": {
         "theorems": [
